@@ -41,11 +41,12 @@ const c04InactDelay = 10 * time.Second
 const c04EnableLag = 100 * 1024 * 1024
 
 type c04Monitor struct {
-	mu     sync.Mutex
-	sc     *Scen
-	w      int
-	ha     []string
-	ia, ib bool
+	markedAt map[string]time.Duration // host -> when its recovery mark was created
+	mu       sync.Mutex
+	sc       *Scen
+	w        int
+	ha       []string
+	ia, ib   bool
 	// the last mutating operation after which a predicate turned false
 	iaBroke, ibBroke string
 	iaWhy, ibWhy     string
@@ -79,13 +80,25 @@ type c04Iter struct {
 
 func newC04Monitor(sc *Scen, w int, ha []string) *c04Monitor {
 	m := &c04Monitor{sc: sc, w: w, ha: ha, it: map[string]*c04Iter{}, divergedSince: map[string]time.Duration{}, notReplSince: map[string]time.Duration{},
-		faulted: map[string]bool{}, tick: 5 * time.Second, evalSince: map[string]time.Duration{}}
+		faulted: map[string]bool{}, tick: 5 * time.Second, evalSince: map[string]time.Duration{}, markedAt: map[string]time.Duration{}}
 	s := sc.S
 	s.W.Lock()
 	s.W.OnChange = append(s.W.OnChange, func(w *world.World) { m.mu.Lock(); m.evalLocked(w); m.mu.Unlock() })
 	s.W.AfterStmt = append(s.W.AfterStmt, m.afterStmt)
 	s.W.Unlock()
 	s.OnZK(func(r fakezk.Rec) {
+		if strings.HasPrefix(r.Path, NS+"/recovery/") {
+			h := strings.TrimPrefix(r.Path, NS+"/recovery/")
+			m.mu.Lock()
+			switch r.Op {
+			case "create":
+				m.markedAt[h] = s.W.Now()
+			case "delete":
+				delete(m.markedAt, h)
+			}
+			m.mu.Unlock()
+			return
+		}
 		if r.Path != NS+"/active_nodes" && r.Path != NS+"/master" {
 			return
 		}
@@ -351,6 +364,16 @@ func (m *c04Monitor) judgeEnd(w *world.World, inst string, it *c04Iter, how stri
 		if mgr != "" && !w.ReachLocked(mgr, master) {
 			return
 		}
+		// the list never contains hosts marked for recovery: a mark that existed when the iteration began is honoured
+		// by its end, whether or not the list had to be written
+		if _, sw := m.sc.S.Cached("switch"); !sw && m.masterRecordGood(it) {
+			// (only iterations that evaluate the list: one that found the master's own record bad ends before that)
+			for _, h := range m.sc.S.ActiveNodesCached() {
+				if t, marked := m.markedAt[h]; marked && h != master && t < it.begin {
+					m.sc.Violate("C04", "S3:recovery-marked-host-in-list-after-iteration", fmt.Sprintf("a completed fault-free iteration of %s that began at %.1fs left %s in the published list %v although it has been marked for recovery since %.1fs", inst, it.begin.Seconds(), h, m.sc.S.ActiveNodesCached(), t.Seconds()))
+				}
+			}
+		}
 		if !m.ia {
 			m.sc.Violate("C04", "S1:Ia-false-after-completed-iteration", fmt.Sprintf("a completed fault-free iteration of %s left (a) false: %s", inst, m.iaWhy), state)
 		}
@@ -556,7 +579,8 @@ func c04Scenario(u *Unit, name string, sh c04Shape, fault *c01Fault) (*Tracker, 
 			time.Sleep(1500 * time.Millisecond)
 			s.W.Restart(hosts[0])
 		case "recovery_mark":
-			s.ZK.Put("operator", NS+"/recovery/"+subject, "null")
+			// (every other shape: a mark created by hand, with an empty payload - the mark is the key, not its content)
+			s.ZK.Put("operator", NS+"/recovery/"+subject, map[bool]string{true: "", false: "null"}[(u.Idx/len(c04Trans))%2 == 1])
 		case "turn_cascade":
 			s.ZK.Remove("operator", NS+"/ha_nodes/"+subject)
 			s.ZK.Put("operator", NS+"/cascade_nodes/"+subject, fmt.Sprintf(`{"stream_from":%q}`, hosts[0]))
@@ -638,6 +662,15 @@ func c04Run(u *Unit) {
 		if f := faults[i]; f.Kind == "dcs-fail" && f.B.Host == "active_nodes" && f.B.Class == "Set" && f.B.Occ <= 2 {
 			faults[k], faults[i] = faults[i], faults[k]
 			k++
+		}
+	}
+	// a failing read of the recovery marks in the second and third iteration after the transition (the first removed
+	// the marked host; a later one that cannot read the marks must not bring it back)
+	for i, k2 := k, 0; i < len(faults) && k2 < 2 && k < n; i++ {
+		if f := faults[i]; sh.Trans == "recovery_mark" && f.Kind == "dcs-fail" && strings.HasPrefix(f.B.Host, "recovery") && (f.B.Occ == 2 || f.B.Occ == 3) {
+			faults[k], faults[i] = faults[i], faults[k]
+			k++
+			k2++
 		}
 	}
 	for pass := 0; pass < 2; pass++ {
